@@ -230,6 +230,45 @@ theorem f04d_path_operand :
     (specParse levels20 true opTable_v20 w_var_step20).isSome = true ∧ rejects opTable_v20 w_var_step20 = true := by
   decide +kernel
 
+/-! ### the arrow operator (3.1 [29] ArrowExpr ::= UnaryExpr ( "=>" ArrowFunctionSpecifier ArgumentList )*) -/
+
+def w_arrow : List Tok := [nm 1, opTok opTable_v31 "=>", .atom 2 1, opTok opTable_v31 "(", num 2, .close 0]
+def w_arrow_chain : List Tok :=
+  [opTok opTable_v31 "-", nm 1, opTok opTable_v31 "=>", nm 2, opTok opTable_v31 "(", .close 0,
+   opTok opTable_v31 "=>", opTok opTable_v31 "(", nm 3, .close 0, opTok opTable_v31 "(", num 1, .close 0,
+   opTok opTable_v31 "cast", .ty 4]
+def w_arrow_map : List Tok := w_arrow ++ [opTok opTable_v31 "!", nm 2]
+def w_arrow_pred : List Tok := w_arrow ++ [opTok opTable_v31 "[", num 1, .close 1]
+def w_arrow_lookup_spec : List Tok :=
+  [nm 1, opTok opTable_v31 "=>", .atom 2 1, opTok opTable_v31 "?", nm 2, opTok opTable_v31 "(", .close 0]
+def w_arrow_two_lists : List Tok := w_arrow ++ [opTok opTable_v31 "(", num 3, .close 0]
+
+/-- the `=>` row of the 3.1 table is a ternary `led` (specifier parsed with rbp 80, argument list with rbp 67, which
+must be `(`-topped); `consistent_v31` places it on the ArrowExpr level between CastExpr and UnaryExpr.  Hence
+(`derives_v31`, `complete_v31`, `model_eq_reference_v31`) arrows group as the EBNF says: `n1 => $v1 ( 2 )` is one
+arrow node; `- n1 => n2 ( ) => ( n3 ) ( 1 ) cast as T` is `((-n1 => n2()) => (n3)(1)) cast as T`; `… ! n2` and
+`… [ 1 ]` after the argument list are rejected by the table and by the EBNF.  The laxity L4 (part of F04b): a lookup on
+the specifier (`n1 => $v1 ? n2 ( )`) and a second argument list (`n1 => $v1 ( 2 ) ( 3 )`) are accepted by the table,
+not by the EBNF. -/
+theorem arrow_v31 :
+    let r := opTable_v31
+    let a := r.findIdx (·.sym == "=>")
+    let g := r.findIdx (·.sym == "(")
+    (modelParse r w_arrow).toOption = some (.arrow a (.atom 0 1) (.atom 2 1) (.group g 0 (.atom 1 2))) ∧
+    (modelParse r w_arrow).toOption = specParse levels31 true r w_arrow ∧
+    (modelParse r w_arrow_chain).toOption = specParse levels31 true r w_arrow_chain ∧
+    (modelParse r w_arrow_chain).toOption =
+      some (.typed (r.findIdx (·.sym == "cast"))
+        (.arrow a (.arrow a (.pre (r.findIdx (·.sym == "-")) (.atom 0 1)) (.atom 0 2) (.group g 0 .nil))
+          (.group g 0 (.atom 0 3)) (.group g 0 (.atom 1 1))) 4) ∧
+    rejects r w_arrow_map = true ∧ specParse levels31 true r w_arrow_map = none ∧
+    rejects r w_arrow_pred = true ∧ specParse levels31 true r w_arrow_pred = none ∧
+    accepts r w_arrow_lookup_spec = true ∧ specParse levels31 true r w_arrow_lookup_spec = none ∧
+    trigF04b r levels31 true none w_arrow_lookup_spec = true ∧
+    accepts r w_arrow_two_lists = true ∧ specParse levels31 true r w_arrow_two_lists = none ∧
+    trigF04b r levels31 true none w_arrow_two_lists = true := by
+  decide +kernel
+
 /-- test (literals): `n1 or n2 and n3 = n4 + n5 * - n6 [ 1 ]`: model = reference parser, and it parses -/
 example : (modelParse opTable_v31 t_mixed).toOption = specParse levels31 true opTable_v31 t_mixed ∧
     (specParse levels31 true opTable_v31 t_mixed).isSome = true := by decide +kernel
@@ -296,14 +335,18 @@ open EPV.Source in
 /-- **`source` round trip as a theorem** (3.1; `_v10`, `_v20`, `_v30` and the compatibility-mode tables are the same
 statement): for every token list the parser model accepts, the `source` text of the resulting tree (the model of
 `XPathToken.source`, compared character by character with the real one on every run) is split by the lexeme
-model into exactly the lexemes of the input tokens, and re-parsing those tokens gives the same tree. -/
-theorem source_roundtrip_v31 (toks : List Tok) (t : Tree) (h : parse (tableOf opTable_v31) toks = .ok t) :
+model into exactly the lexemes of the input tokens, and re-parsing those tokens gives the same tree.
+`argsOpen t` (3.1 only; the other tables have no arrow symbol): the argument list of every `=>` node starts with its
+parenthesis — `led__arrow_operator` also accepts `x => $f 1(2)` (the call `1(2)` is `(`-topped), whose `source`
+`x => $f1(2)` reads differently; outside the EBNF (F04b, L4) and excluded here. -/
+theorem source_roundtrip_v31 (toks : List Tok) (t : Tree) (h : parse (tableOf opTable_v31) toks = .ok t)
+    (ha : argsOpen t = true) :
     lexAll textTbl_v31 (textOf (render textTbl_v31 t)).length (textOf (render textTbl_v31 t)) =
       some (toks.flatMap (tokLex textTbl_v31)) ∧ parse (tableOf opTable_v31) t.yield = .ok t := by
   have hok := textOK_of_check opTable_v31 textTbl_v31 followCh_v31 startCh_v31 ntys_v31
     (by intro n; show (_[n % 48]?).getD [] = (_[n % ntys_v31 % 48]?).getD []; simp [ntys_v31, Nat.mod_mod]) text_ok.2.2.2.1
   refine ⟨?_, parse_yield_idem _ toks t h⟩
-  rw [source_lexes_back opTable_v31 textTbl_v31 _ _ hok t (pratt_wfr _ toks t h), pratt_yield _ toks t h]
+  rw [source_lexes_back opTable_v31 textTbl_v31 _ _ hok t (pratt_wfr _ toks t h) ha, pratt_yield _ toks t h]
 
 open EPV.Source in
 theorem source_roundtrip_v20 (toks : List Tok) (t : Tree) (h : parse (tableOf opTable_v20) toks = .ok t) :
@@ -312,7 +355,8 @@ theorem source_roundtrip_v20 (toks : List Tok) (t : Tree) (h : parse (tableOf op
   have hok := textOK_of_check opTable_v20 textTbl_v20 followCh_v20 startCh_v20 ntys_v20
     (by intro n; show (_[n % 48]?).getD [] = (_[n % ntys_v20 % 48]?).getD []; simp [ntys_v20, Nat.mod_mod]) text_ok.2.1
   refine ⟨?_, parse_yield_idem _ toks t h⟩
-  rw [source_lexes_back opTable_v20 textTbl_v20 _ _ hok t (pratt_wfr _ toks t h), pratt_yield _ toks t h]
+  have ha := argsOpen_of_noArrow _ (noArrow_of_check opTable_v20 (by decide +kernel)) t (pratt_wfr _ toks t h)
+  rw [source_lexes_back opTable_v20 textTbl_v20 _ _ hok t (pratt_wfr _ toks t h) ha, pratt_yield _ toks t h]
 
 open EPV.Source in
 theorem source_roundtrip_v10 (toks : List Tok) (t : Tree) (h : parse (tableOf opTable_v10) toks = .ok t) :
@@ -321,7 +365,8 @@ theorem source_roundtrip_v10 (toks : List Tok) (t : Tree) (h : parse (tableOf op
   have hok := textOK_of_check opTable_v10 textTbl_v10 followCh_v10 startCh_v10 ntys_v10
     (by intro n; show (_[n % 48]?).getD [] = (_[n % ntys_v10 % 48]?).getD []; simp [ntys_v10, Nat.mod_mod]) text_ok.1
   refine ⟨?_, parse_yield_idem _ toks t h⟩
-  rw [source_lexes_back opTable_v10 textTbl_v10 _ _ hok t (pratt_wfr _ toks t h), pratt_yield _ toks t h]
+  have ha := argsOpen_of_noArrow _ (noArrow_of_check opTable_v10 (by decide +kernel)) t (pratt_wfr _ toks t h)
+  rw [source_lexes_back opTable_v10 textTbl_v10 _ _ hok t (pratt_wfr _ toks t h) ha, pratt_yield _ toks t h]
 
 /-! ### tokenizer: the order of the custom alternatives (a Python `set`, hash-seed dependent) is irrelevant -/
 
